@@ -190,3 +190,13 @@ Proof.
   split; [reflexivity|]. split; vm_compute; tauto.
 Qed.
 Print Assumptions metadata_recorded.
+
+(** flags_in_type_equality: a function type's unitary flags take part in type equality (they are a
+    compared field of the FunctionType dataclass, next to inputs and output), so a local function
+    value merged from branches / a conditional expression with differently-flagged candidates is a
+    type mismatch and `visit_LocalCall` never sees flags that only some candidate has. *)
+Theorem flags_in_type_equality :
+  In "unitary_flags"%string functiontype_eq_fields /\ In "inputs"%string functiontype_eq_fields /\
+  In "output"%string functiontype_eq_fields.
+Proof. repeat split; apply mem_In; vm_compute; reflexivity. Qed.
+Print Assumptions flags_in_type_equality.
